@@ -25,8 +25,61 @@ class _Yield:
         yield self
 
 
+_CUR_SPEC = contextvars.ContextVar("verif_c12_current_call")
+
+
+def _mk_methods(case):
+    """Variant: every function id is an OBJECT of a class with an invariant; a call is a public-method call on it.
+    The invariant's truth for the current call is read from a context variable (each task has its own context)."""
+    state = {}
+    fns = {}
+    is_async = case["mode"] == "async"
+
+    def inv(self):
+        spec = _CUR_SPEC.get(None)
+        if spec is None:
+            return True
+        if not is_async:
+            for _ in range(spec["condYields"]):
+                state["pause"]()
+        return spec["preTruthy"]
+
+    if is_async:
+        @icontract.invariant(inv, error=ValueError("violation"))
+        class K:
+            def __init__(self):
+                self.x = 1
+
+            async def m(self, spec):
+                for _ in range(spec["bodyYields"]):
+                    await _Yield()
+                return "done"
+    else:
+        @icontract.invariant(inv, error=ValueError("violation"))
+        class K:
+            def __init__(self):
+                self.x = 1
+
+            def m(self, spec):
+                for _ in range(spec["bodyYields"]):
+                    state["pause"]()
+                return "done"
+
+    for fid in sorted(set(c["f"] for t in case["tasks"] for c in t["calls"])):
+        obj = K()
+
+        def call(spec, obj=obj):
+            _CUR_SPEC.set(spec)
+            return obj.m(spec)
+
+        fns[fid] = call
+    return fns, state
+
+
 def _mk(case):
     """The contracted functions (one per function id) for the async / sync flavour."""
+    if case.get("asMethod"):
+        return _mk_methods(case)
     state = {}
     fns = {}
     is_async = case["mode"] == "async"
@@ -80,7 +133,9 @@ def _contexts(case, fns):
     ctxs = []
     for i, t in enumerate(case["tasks"]):
         inh = case["inherit"][i]
-        if inh == "fresh":
+        if inh.startswith("spawn_in_body"):
+            ctxs.append(None)          # copied from the parent task's context when the task is first scheduled
+        elif inh == "fresh":
             ctxs.append(contextvars.Context())
         elif inh == "copy_before":
             ctxs.append(before[i])
@@ -108,14 +163,22 @@ def run(case):
 
         coros = [mk_task(i) for i in range(n)]
         done = [False] * n
+        def ensure_ctx(i):
+            if ctxs[i] is None:
+                j = int(case["inherit"][i].split(":")[1])
+                ensure_ctx(j)
+                ctxs[i] = ctxs[j].copy()       # what asyncio.create_task / to_thread do at the spawning point
+
         for i in case["sched"]:
             if i >= n or done[i]:
                 continue
+            ensure_ctx(i)
             try:
                 ctxs[i].run(coros[i].send, None)
             except StopIteration:
                 done[i] = True
         for i in range(n):
+            ensure_ctx(i)
             # let every task finish alone (its remaining steps in any order do not matter for the verdicts so far)
             while not done[i]:
                 try:
